@@ -492,8 +492,9 @@ VARIANTS += [
     V("C05", "union members not flattened", VIS, "            union_items = mp_types.flatten_nested_unions(mypy_type.items, handle_recursive=False)\n", "            union_items = mypy_type.items\n", "C05.CTOR-TABLE"),
 ]
 VARIANTS += [
-    V("C03", "alias taken from any import ending like the name", GEN, '                if qualified_import.qualified_name.split(".")[-1] == node.name:', '                if qualified_import.qualified_name.endswith(node.name):', "C03.MOVE"),
-    V("C03", "benign: own import recognised with rpartition", GEN, '                if qualified_import.qualified_name.split(".")[-1] == node.name:', '                if qualified_import.qualified_name.rpartition(".")[2] == node.name:', None),
+    V("C03", "alias taken from any import ending like the name", GEN, '                if node.id in {import_id, f"{shortest_reexport_module.id}/{import_id}"}:', '                if qualified_import.qualified_name.endswith(node.name):', "C03.MOVE"),
+    V("C03", "alias taken from an import of a namesake again", GEN, '                if node.id in {import_id, f"{shortest_reexport_module.id}/{import_id}"}:', '                if qualified_import.qualified_name.split(".")[-1] == node.name:', "C03.MOVE"),
+    V("C03", "benign: resolutions of the import compared one by one", GEN, '                if node.id in {import_id, f"{shortest_reexport_module.id}/{import_id}"}:', '                if node.id == import_id or node.id == f"{shortest_reexport_module.id}/{import_id}":', None),
     V("C11", "re-exporters ordered by path length first", VIS, "        # Sort for snapshot tests\n        reexported_by.sort(key=lambda x: x.id)\n\n        # Get constructor docstring", "        # Sort for snapshot tests\n        reexported_by.sort(key=lambda x: (len(x.id), x.id))\n\n        # Get constructor docstring", "C11.MOVE-IMPORT-AGREE"),
     V("C11", "move keeps the last package of minimal depth", GEN, "            if len(reexport_module.id.split(\"/\")) < len(shortest_reexport_module_id.split(\"/\")):", "            if len(reexport_module.id.split(\"/\")) <= len(shortest_reexport_module_id.split(\"/\")):", "C11.MOVE-IMPORT-AGREE"),
     V("C11", "benign: sort key lambda parameter renamed", VIS, "        # Sort for snapshot tests\n        reexported_by.sort(key=lambda x: x.id)\n\n        # Get constructor docstring", "        # Sort for snapshot tests\n        reexported_by.sort(key=lambda module: module.id)\n\n        # Get constructor docstring", None),
